@@ -117,7 +117,7 @@ def run(ctx):
     ctx.trusted += ['tools/gen_tables.py (decimal text of every coefficient -> scaled integers; ast of athlon_score.py)',
                     'binary floating point is NOT modelled: the model takes the decimal mark; float behaviour is observed through the correspondence only']
     ctx.assumptions += ['gender/event strings are ASCII (str.upper modelled as ASCII upper-casing)',
-                        'events that have a scoring row but no WMA combined-events factor (60, 600, 3000, 5000, 10000, 3000SC) with a masters age: the grader raises ValueError; observed, not demanded either way']
+                        'events that have a scoring row but no WMA combined-events factor (60, 600, 3000, 5000, 10000, 3000SC) with a masters age: the grader raises ValueError — recorded as the known finding C01-scored-row-without-age-factor (the exact formula has no factor to apply there, so the correspondence itself does not judge these calls)']
     side = gen_step(ctx)
     if side is None: return
     import gen
@@ -178,6 +178,19 @@ def run(ctx):
             ctx.fail('athlib.athlon_score', [g_, e, v, a, esaa], mo, im,
                      note=('age' if a else ('int-form' if isinstance(v, int) else 'float-form')) + '; preceding calls in this run: %r; last call made with a non-numeric mark before it: %s' % (prev, lastfault),
                      replay_py=('try: %s\nexcept Exception: pass\n' % lastfault if lastfault else '') + 'result = athlib.athlon_score(%r, %r, %r, age=%r, esaa=%r)' % (g_, e, v, a, esaa))
+    # ---- scored rows for which the combined-events age table has no factor (60, 600, 3000, 5000, 10000, 3000SC): the property
+    # quantifies over every row x every age and promises a non-negative integer; the library raises (recorded as a known finding)
+    nnf = 0
+    for (g_, ev_) in sorted({(r.gender, r.event) for r in rows}):
+        if oracle(rowmap, esaa_row, codes, athlib, g_, ev_, 1000, 50, False) is not None: continue
+        for a_ in (35, 50, 110):
+            nnf += 1
+            got_ = AC.canon(lambda: athlib.athlon_score(g_, ev_, 10.0, age=a_))
+            if not got_.startswith('p '):
+                ctx.fail('athlib.athlon_score', [g_, ev_, 10.0, a_, False], 'a non-negative integer (a scored row, a masters age)', got_,
+                         note='scored row without a combined-events age factor: a masters age raises',
+                         replay_py='result = (athlib.athlon_score(%r, %r, 10.0), athlib.athlon_score(%r, %r, 10.0, age=%r))' % (g_, ev_, g_, ev_, a_))
+    ctx.count(nnf, 'rows_without_age_factor_calls')
     # ---- the coefficient table against the specification-side copy of the official table (the model is regenerated from
     # the tree's own table, so a mistyped coefficient would move model and implementation together)
     pinned_rows = json.load(open(os.path.join(vlib.VERIF, 'spec', 'athlon_coefficients_pinned.json')))['table']
